@@ -248,11 +248,14 @@ def correspondence(ctx):
                  or m.startswith("concurrent.futures.")]
         if cfg == "default" and (hits["imported"] or hits["imports"] or hits["pickle"] or hits["denied_attr"]
                                  or hits["denied_call"] or hits["keys"] or lured or hits["module_hooks"]
+                                 or (armed("class_factory_reads_no_module_object") and hits["module_object_reads"])
+                                 or (armed("cmp_respects_object_hook") and _hook_bypassed(hits["special"]))
                                  or hw.illegitimate_writes(hits["state_writes"])):
             # the canaries are independent of the recorder: under the default configuration none may ever be hit
             c.disagreements.append(dict(
                 case=dict(kind="history", seed=ctx.seed, index=i, config=cfg, sent=desc), first_difference=-1,
-                impl=("canaries hit: module-hooks=%r " % (hits["module_hooks"][:2],) + "imported=%r import-calls=%r pickle=%r denied-attr=%r denied-call=%r keys=%r modules=%r "
+                impl=("canaries hit: module-hooks=%r module-object-reads=%r hook-bypassed=%r " % (
+                    hits["module_hooks"][:2], hits["module_object_reads"][:2], _hook_bypassed(hits["special"])[:2]) + "imported=%r import-calls=%r pickle=%r denied-attr=%r denied-call=%r keys=%r modules=%r "
                       "state-writes=%r" % (hits["imported"][:2], hits["imports"][:2], hits["pickle"][:2], hits["denied_attr"][:2],
                                            hits["denied_call"][:2], hits["keys"][:2], lured[:3],
                                            hw.illegitimate_writes(hits["state_writes"])[:2]))[:400],
@@ -278,9 +281,14 @@ def correspondence(ctx):
     except Exception:  # noqa
         pass
     c.extra["measured"] = hw.measured()
+    c.extra["expected_fixed"] = dict(EXPECTED_FIXED)
     for k_, v_ in hw.measured().items():
-        if not v_:
-            c.count("known-weakness(measured, oracle clause not armed):" + k_)
+        if not v_ and EXPECTED_FIXED[k_]:
+            c.disagreements.append(dict(case=dict(kind="history", seed=ctx.seed, index=-1), first_difference=-1,
+                                        impl="measured on the code under test: %s is False" % k_,
+                                        model="%s (a repaired weakness; EXPECTED_FIXED in harness/props/c07.py)" % k_))
+        elif not v_:
+            c.count("known-weakness(measured, clause not armed):" + k_)
     c.extra["sessions"] = len(lines)
     c.extra["messages"] = nmsg
     c.extra["unpoliced_by_design"] = [
@@ -397,6 +405,23 @@ def _cross_connection_probe(s, g, r):
                     cls, "made %s escape serve()" % type(escaped).__name__ if escaped is not None else "caused damage",
                     "answered" if answers else "never answered"))
     return None
+
+
+# two reported weaknesses of the pinned code and whether the tree is expected to have them repaired.  The clauses about them
+# (in the canary cross-check of the correspondence and in the direct oracle) are armed as soon as EITHER this says so or the
+# code is measured to behave (handlers_world.measured); once an entry is True here, measuring False is itself a failure -
+# so a repair is picked up without a false alarm, and its later loss is caught.
+EXPECTED_FIXED = dict(cmp_respects_object_hook=False, class_factory_reads_no_module_object=False)
+
+
+def armed(key):
+    return EXPECTED_FIXED[key] or hw.measured()[key]
+
+
+def _hook_bypassed(special):
+    """special methods run on the `Hooked` canary (its own `_rpyc_getattr` allows x, exposed_m, __exit__ only) that no
+    handler reaches except through an attribute access (`__iter__` is excluded: HANDLE_BUFFITER iterates by design)"""
+    return [h for h in special if h[0] == "h4" and h[1] in ("__getitem__", "__lt__")]
 
 
 def _must_refuse(m):
@@ -577,14 +602,12 @@ def oracle_session(seed, index, n_bursts=None):
                 problems.append("pickle was used: %r" % (rt.PICKLE_LOG[:3],))
             if rt.IMPORT_LOG or hw.IMPORTED:
                 problems.append("an import was attempted: %r %r" % (rt.IMPORT_LOG[:3], hw.IMPORTED[:3]))
-            m_ = hw.measured()
-            if m_["class_factory_reads_no_module_object"] and hw.HITS.module_object_reads:
+            if armed("class_factory_reads_no_module_object") and hw.HITS.module_object_reads:
                 problems.append("attributes %r were read on a module-level object of the serving process that was never sent "
                                 "(named by the peer as a class)" % (hw.HITS.module_object_reads[:3],))
-            if m_["cmp_respects_object_hook"]:
-                hooked = [h for h in hw.HITS.special if h[0] == "h4"]
-                if hooked:
-                    problems.append("special methods %r of an object whose own _rpyc_getattr refuses them were invoked" % (hooked[:3],))
+            if armed("cmp_respects_object_hook") and _hook_bypassed(hw.HITS.special):
+                problems.append("special methods %r of an object whose own _rpyc_getattr refuses them were invoked"
+                                % (_hook_bypassed(hw.HITS.special)[:3],))
             if hw.HITS.module_hooks:
                 problems.append("a module-level __getattr__ hook ran with a peer-chosen name: %r" % (hw.HITS.module_hooks[:3],))
             new = [m for m in set(sys.modules) - mods_before
